@@ -205,7 +205,8 @@ where
                             }
                         }
 
-                        param = param.chars().skip(1).take(param.len() - 1).collect();
+                        // Drop the `;` that separates the code from the string.
+                        param = param.chars().skip(1).collect();
 
                         if "01".contains(&code) {
                             listener.lock().unwrap().set_icon_name(&param);
@@ -328,7 +329,8 @@ where
                             }
                         }
 
-                        param = param.chars().skip(1).take(param.len() - 1).collect();
+                        // Drop the `;` that separates the code from the string.
+                        param = param.chars().skip(1).collect();
 
                         if "01".contains(&code) {
                             listener.lock().unwrap().set_icon_name(&param);
